@@ -29,7 +29,11 @@ def make_replay(pid, v, path, tier, use_templates=True):
     except Exception as e:  # templates are optional
         doc["template_error"] = repr(e)
     key = (v.get("label") or "internal")
-    for lab, fn in (TEMPLATES.items() if use_templates else []):
+    items = list(TEMPLATES.items()) if use_templates else []
+    if key.endswith(".e2e"):
+        from replay import templates as _t
+        items = [(key, _t.e2e_family)]
+    for lab, fn in items:
         if key.startswith(lab) or (lab == "*"):
             try:
                 r = fn(pid, v, tier)
